@@ -119,7 +119,7 @@ def unused_prefix_summary(ctx: Ctx):
 def notin_facts(ctx: Ctx, q, g, fresh_key_methods, table="self"):
     fi = ctx.fn(q)
     names = {n.id for n in ast.walk(fi.node) if isinstance(n, ast.Name)}
-    universe = {("notin", n) for n in names}
+    universe = {("notin", n) for n in names} | {("nsprefix", x, y) for x in names for y in names}
 
     def gen_edge(a, b, lab):
         out = set()
@@ -146,15 +146,32 @@ def notin_facts(ctx: Ctx, q, g, fresh_key_methods, table="self"):
             for t in s.targets:
                 if isinstance(t, ast.Subscript) and norm(t.value) == "self":
                     return set()
+            before = set(facts)
             for t in s.targets:
                 bound = [t] if isinstance(t, ast.Name) else (list(t.elts) if isinstance(t, (ast.Tuple, ast.List)) else [])
                 for x in bound:
                     if isinstance(x, ast.Name):
                         facts.discard(("notin", x.id))
+                        for f in [f for f in facts if f[0] == "nsprefix" and x.id in f[1:]]:
+                            facts.discard(f)
             if len(s.targets) == 1 and isinstance(s.targets[0], ast.Name):
                 tgt = s.targets[0].id
                 v = s.value
-                if isinstance(v, ast.Name) and ("notin", v.id) in facts:
+                if isinstance(v, ast.Name) and v.id != tgt:
+                    # a copy carries what is known of the original
+                    for f in before:
+                        if f[0] == "nsprefix" and f[1] == v.id and f[2] != tgt:
+                            facts.add(("nsprefix", tgt, f[2]))
+                if isinstance(v, ast.Call):
+                    r = ctx.p.resolve_dotted(fi.module, v.func)
+                    if r and r[0] == "class" and r[1] == "prov.identifier.Namespace":
+                        pe, _ue = namespace_ctor_args(ctx, v)
+                        if isinstance(pe, ast.Name) and pe.id != tgt:
+                            facts.add(("nsprefix", tgt, pe.id))  # tgt is a namespace whose prefix is the current value of pe
+                if isinstance(v, ast.Attribute) and v.attr in ("prefix", "_prefix") and isinstance(v.value, ast.Name):
+                    if any(f[0] == "nsprefix" and f[1] == v.value.id and ("notin", f[2]) in before for f in before):
+                        facts.add(("notin", tgt))
+                if isinstance(v, ast.Name) and ("notin", v.id) in before and v.id != tgt:
                     facts.add(("notin", tgt))
                 elif isinstance(v, ast.Call) and isinstance(v.func, ast.Attribute) and norm(v.func.value) == "self" and v.func.attr in fresh_key_methods:
                     facts.add(("notin", tgt))
@@ -222,6 +239,20 @@ def c03_r2(ctx: Ctx, rule):
     return res
 
 
+def namespace_ctor_args(ctx: Ctx, call: ast.Call):
+    """(prefix expression, uri expression) of a Namespace(...) construction, positional or by keyword (parameter names read off __init__)."""
+    ps = ctx.fn(ctx.p.lookup_method("prov.identifier.Namespace", "__init__")).params[1:]
+    if len(ps) < 2 or any(isinstance(a, ast.Starred) for a in call.args):
+        return None, None
+    got = {}
+    for i, a in enumerate(call.args[:2]):
+        got[ps[i]] = a
+    for k in call.keywords:
+        if k.arg in ps[:2]:
+            got[k.arg] = k.value
+    return got.get(ps[0]), got.get(ps[1])
+
+
 def uri_token(ctx: Ctx, fi, e, arg_ns_names, depth=0, visiting=frozenset(), argname=None):
     """'U0' if expression `e` denotes a namespace (or uri string) provably carrying the argument namespace's URI; else a reason string."""
     if depth > 8:
@@ -246,8 +277,10 @@ def uri_token(ctx: Ctx, fi, e, arg_ns_names, depth=0, visiting=frozenset(), argn
         return "?%s" % norm(e)
     if isinstance(e, ast.Call):
         r = ctx.p.resolve_dotted(fi.module, e.func)
-        if r and r[0] == "class" and r[1] == "prov.identifier.Namespace" and len(e.args) == 2:
-            return uri_token(ctx, fi, e.args[1], arg_ns_names, depth + 1, visiting, argname)
+        if r and r[0] == "class" and r[1] == "prov.identifier.Namespace":
+            pe, ue = namespace_ctor_args(ctx, e)
+            if ue is not None:
+                return uri_token(ctx, fi, ue, arg_ns_names, depth + 1, visiting, argname)
         if isinstance(e.func, ast.Attribute) and norm(e.func.value) == "self" and e.func.attr == "add_namespace" and e.args:
             return uri_token(ctx, fi, e.args[0], arg_ns_names, depth + 1, visiting, argname)  # by add_namespace's summary (checked below)
         return "?call %s" % norm(e.func)
@@ -321,19 +354,29 @@ def c03_r3(ctx: Ctx, rule):
         raise AnalysisError("QualifiedName branch of valid_qualified_name not found")
     ns_names = set()
     local_names_ok = set()
-    for n in ast.walk(branch):
-        if isinstance(n, ast.Assign) and len(n.targets) == 1 and isinstance(n.targets[0], ast.Name):
-            v = norm(n.value)
-            if v in ("%s.namespace" % arg, "%s._namespace" % arg):
-                ns_names.add(n.targets[0].id)
-            if v in ("%s.localpart" % arg, "%s._localpart" % arg):
-                local_names_ok.add(n.targets[0].id)
+    arg_aliases = {arg}
+    assigns = [n for n in ast.walk(branch) if isinstance(n, ast.Assign) and len(n.targets) == 1 and isinstance(n.targets[0], ast.Name)]
+    defs_of = {}
+    for n in assigns:
+        defs_of.setdefault(n.targets[0].id, []).append(n.value)
+    changed = True
+    while changed:  # closed under plain copies (x = y), e.g. the parameter bindings of an inlined helper
+        changed = False
+        for name, ds in defs_of.items():
+            def all_in(pred):
+                return all(pred(d) for d in ds)
+            if name not in arg_aliases and all_in(lambda d: isinstance(d, ast.Name) and d.id in arg_aliases):
+                arg_aliases.add(name); changed = True
+            if name not in ns_names and all_in(lambda d: (isinstance(d, ast.Attribute) and d.attr in ("namespace", "_namespace") and isinstance(d.value, ast.Name) and d.value.id in arg_aliases) or (isinstance(d, ast.Name) and d.id in ns_names)):
+                ns_names.add(name); changed = True
+            if name not in local_names_ok and all_in(lambda d: (isinstance(d, ast.Attribute) and d.attr in ("localpart", "_localpart") and isinstance(d.value, ast.Name) and d.value.id in arg_aliases) or (isinstance(d, ast.Name) and d.id in local_names_ok)):
+                local_names_ok.add(name); changed = True
     if not ns_names:
         raise AnalysisError("valid_qualified_name: the argument's namespace is never bound to a local")
 
     def check_value(e, where, f=fi, ns=ns_names, loc_ok=local_names_ok, argn=arg, depth=0):
         e0 = e
-        if isinstance(e, ast.Name) and e.id == argn:
+        if isinstance(e, ast.Name) and (e.id == argn or (f is fi and e.id in arg_aliases)):
             res.ob("returns the argument itself (%s)" % where, nontrivial=False)
             return
         if isinstance(e, ast.Name):
@@ -345,7 +388,8 @@ def c03_r3(ctx: Ctx, rule):
                     check_value(d, "%s = %s" % (e.id, norm(d)), f, ns, loc_ok, argn, depth)
             return
         if isinstance(e, ast.Subscript):
-            lok = norm(e.slice) in loc_ok or norm(e.slice) in ("%s.localpart" % argn, "%s._localpart" % argn)
+            als = arg_aliases if f is fi else {argn}
+            lok = norm(e.slice) in loc_ok or any(norm(e.slice) in ("%s.localpart" % a, "%s._localpart" % a) for a in als)
             tok = uri_token(ctx, f, e.value, ns, argname=argn)
             res.ob("%s: local part from the argument=%s, namespace carries the argument's URI=%s" % (where, lok, tok))
             if not lok or tok != "U0":
@@ -439,7 +483,7 @@ def c03_r5(ctx: Ctx, rule):
             continue
         seen_q.add(q)
         fi = ctx.fn(q)
-        attrs = {n.attr for n in walk_function(fi.node) if isinstance(n, ast.Attribute) and isinstance(n.value, ast.Name) and n.value.id in fi.params}
+        attrs = {ctx.canon_field(cls, n.attr) if not n.attr.startswith("__") else n.attr for n in walk_function(fi.node) if isinstance(n, ast.Attribute) and isinstance(n.value, ast.Name) and n.value.id in fi.params}
         proj = {a.lstrip("_") for a in attrs} - {"class__"}
         proj = {a for a in proj if a not in ("__class__",)}
         bad = {a for a in attrs if a.lstrip("_") not in ("uri",) and a != "__class__"}
@@ -735,11 +779,12 @@ def c03_r11(ctx: Ctx, rule):
             if not f2.cls or f2.cls != NS_:
                 continue
             for n in walk_function(f2.node):
-                if isinstance(n, ast.Attribute) and n.attr.lstrip("_") in ("uri", "prefix") and isinstance(n.value, ast.Name):
-                    seen_fields.add(n.attr.lstrip("_"))
-                if isinstance(n, ast.Call) and isinstance(n.func, ast.Attribute) and isinstance(n.func.value, ast.Attribute) and n.func.value.attr.lstrip("_") in ("uri", "prefix"):
+                cf = lambda a: ctx.canon_field(NS_, a)
+                if isinstance(n, ast.Attribute) and cf(n.attr) in ("uri", "prefix") and isinstance(n.value, ast.Name):
+                    seen_fields.add(cf(n.attr))
+                if isinstance(n, ast.Call) and isinstance(n.func, ast.Attribute) and isinstance(n.func.value, ast.Attribute) and cf(n.func.value.attr) in ("uri", "prefix"):
                     wrapped.append(norm(n))
-                if isinstance(n, ast.Call) and isinstance(n.func, ast.Name) and n.func.id not in ("hash", "isinstance", "tuple", "type") and any(isinstance(a, ast.Attribute) and a.attr.lstrip("_") in ("uri", "prefix") for a in n.args):
+                if isinstance(n, ast.Call) and isinstance(n.func, ast.Name) and n.func.id not in ("hash", "isinstance", "tuple", "type") and any(isinstance(a, ast.Attribute) and cf(a.attr) in ("uri", "prefix") for a in n.args):
                     wrapped.append(norm(n))
         ok = {"uri", "prefix"} <= seen_fields and not wrapped
         res.ob("Namespace.%s uses %s untransformed: %s" % (m, sorted(seen_fields), ok))
@@ -793,3 +838,27 @@ RULES.setdefault("C18", []).append(Rule("C18.R10", "ProvBundle.add_namespace alw
                                         "every declared prefix, aliases of known URIs included, resolves in lookups"))
 RULES.setdefault("C03", []).append(Rule("C03.R12", "ProvBundle.add_namespace always reaches the manager's add_namespace (shared with C18.R10)", 1, c18_r10, "F-PATH",
                                         "every declared prefix resolves to the URI it was declared for"))
+
+
+# ------------------------------------------------------------------------------------------ every rule of this module sees NamespaceManager
+# with its private helpers inlined into their callers (sa/inline.py): must-facts, value provenance and store pairing are then the
+# same whether or not a block of add_namespace / valid_qualified_name has been extracted into a helper method.
+def _with_inlined_manager(fn):
+    def run(ctx, rule):
+        from ..inline import inlined_view
+
+        view = inlined_view(ctx, NSM, exclude=frozenset(unused_prefix_summary(ctx)))  # fresh-key helpers stay calls: they have a summary
+        res = fn(view, rule)
+        info = view._cache.get("inline-info", {})
+        if info.get("absorbed"):
+            res.exceptions.append("NamespaceManager helpers analysed inlined in their callers: %s" % [short(q) for q in info["absorbed"]])
+        return res
+
+    run.__name__ = getattr(fn, "__name__", "rule")
+    run.__doc__ = fn.__doc__
+    return run
+
+
+for _rules in RULES.values():
+    for _r in _rules:
+        _r.fn = _with_inlined_manager(_r.fn)
